@@ -14,10 +14,10 @@ pub fn prop() -> Prop {
     Prop {
         id: "C09",
         level: "model_checking",
-        rule: "all streams of <=3 rows {k,v,id} over the 12 group keys {\"a\",\"b\",\"\",\"é\",1,null,absent,\"ab\",\"null\",[\"a\"], a key ending in a backslash, a key holding backslash-t} and of 4 (thorough <=6) rows over a 7-key core of them (including the empty stream and streams whose every row is dropped) x 16 upstream pipelines (--skip 1 --take 2^64-1; --unique on a selection without the key; two selections under one name; take 35 and skip 3 take 100 among them; none, select, select of the key only (so that rows repeat), filter, unique, sort by id desc, sort by the mixed-type key, skip+take, split, take 0, select+sort+skip+take) x {--group-by=.k, --group-by=(get . \"k\"), --group-by=.k#0 (a key selection with an index step), --merge} x {json, text output}; long cyclic streams of 17, 40, 300 and 1100 rows; streams with 15..257 distinct keys each coming back; non-trivial = two rows share a key or a row is dropped for its key; distinct by construction",
+        rule: "all streams of <=3 rows {k,v,id} over the 12 group keys {\"a\",\"b\",\"\",\"é\",1,null,absent,\"ab\",\"null\",[\"a\"], a key ending in a backslash, a key holding backslash-t} and of 4 (thorough <=6) rows over a 7-key core of them (including the empty stream and streams whose every row is dropped) x 16 upstream pipelines (--skip 1 --take 2^64-1; --unique on a selection without the key; two selections under one name; take 35 and skip 3 take 100 among them; none, select, select of the key only (so that rows repeat), filter, unique, sort by id desc, sort by the mixed-type key, skip+take, split, take 0, select+sort+skip+take) x {--group-by=.k, --group-by=(get . \"k\"), --group-by=.k#0 (a key selection with an index step), --merge} x {json, text output}; long cyclic streams of 17, 40, 300 and 1100 rows; streams with 15..257 distinct keys each coming back; non-trivial = two rows share a key or a row is dropped for its key; distinct by construction; all streams of <=3 rows of every type (arrays, the empty array, objects, scalars, null) through --merge and a --group-by on the type, as input values and as split items, also behind --unique and --sort-by",
         explanation: "exactly one value must be printed, after the input ended; it is compared (a) with the documented grouping applied to the rows the same pipeline prints without grouping (differential) and (b) with the reference pipeline",
         assumptions: COMMON_ASSUMPTIONS.to_vec(),
-        guards: vec!["command-line-respelled", "many-distinct-keys", "empty-input", "no-row-survives", "non-string-key-dropped", "absent-key-dropped", "two-rows-share-a-key", "limiter-before-grouper", "empty-string-key", "non-ascii-key", "text-output"],
+        guards: vec!["rows-that-are-arrays", "command-line-respelled", "many-distinct-keys", "empty-input", "no-row-survives", "non-string-key-dropped", "absent-key-dropped", "two-rows-share-a-key", "limiter-before-grouper", "empty-string-key", "non-ascii-key", "text-output"],
         budget_s: (100, 2400),
         single_worker: false,
         run,
@@ -296,5 +296,51 @@ fn run(ctx: &mut Ctx) {
         }
     }
     ctx.level_done("many-distinct-keys(15..257)-each-coming-back");
+    // rows of every type (arrays, an empty array, scalars, null, objects): a collected row is ONE member of the
+    // collection whatever its type, also when it is a split item that is itself an array
+    {
+        let vals: Vec<V> = ["[1, 2]", "[]", "{\"k\": \"a\"}", "5", "[[3], \"x\"]", "null", "\"s\""].iter().map(|t| json::parse_str(t)).collect();
+        let groupings: [Option<Group>; 2] = [Some(Group::Merge), Some(Group::By(p("(? (array? .) \"arr\" (? (object? .) .k \"other\"))")))];
+        let mut seqs: Vec<Vec<usize>> = Vec::new();
+        crate::explore::seqs_upto(vals.len(), 3, |s| seqs.push(s.to_vec()));
+        for s in seqs {
+            if !ctx.mine() {
+                continue;
+            }
+            let rows: Vec<V> = s.iter().map(|i| vals[*i].clone()).collect();
+            for g in &groupings {
+                for split in [false, true] {
+                    for extra in 0..3usize {
+                        let mut cfg = Config::default();
+                        cfg.group = g.clone();
+                        let inputs: Vec<V> = if split {
+                            cfg.split = Some(p(".rows"));
+                            vec![V::Obj(vec![("rows".into(), V::Arr(rows.clone()))])]
+                        } else {
+                            rows.clone()
+                        };
+                        match extra {
+                            1 => cfg.unique = true,
+                            2 => cfg.sorts = vec![(p("(stringify .)"), true, "DESC")],
+                            _ => {}
+                        }
+                        let case = pipe::case_for(&cfg, &inputs);
+                        let sig = format!("rows of every type, {}", pipe::shape(&cfg));
+                        let (_, out) = pipe::run_rows(ctx, &case, &sig);
+                        ctx.case_done();
+                        ctx.trace_validated();
+                        ctx.guard("rows-that-are-arrays");
+                        if s.iter().any(|i| matches!(vals[*i], V::Arr(_))) {
+                            ctx.nontrivial();
+                        }
+                        if let pipe::Outcome::Rows(got) = out {
+                            let _ = pipe::compare_with_model(ctx, &cfg, &inputs, &case, &got, "collection-differs-from-reference-pipeline");
+                        }
+                    }
+                }
+            }
+        }
+        ctx.level_done("rows-of-every-type(<=3-rows-x-merge/group-x-split-x-unique/sort)");
+    }
     let _ = Tier::Quick;
 }
